@@ -29,6 +29,10 @@ class PathError(Exception):
     pass
 
 
+class PathUnspecified(Exception):
+    """Spelling the documentation does not define (neither valid nor clearly malformed)."""
+
+
 def parse_npath(npath: str):
     """-> (depth, [decoded segment names]) or raises PathError."""
     depth = 0
@@ -51,6 +55,8 @@ def parse_npath(npath: str):
                     if i + 1 >= n:
                         raise PathError("dangling escape")
                     nx = rest[i + 1]
+                    if nx not in 'nrt"\\':
+                        raise PathUnspecified("unknown escape in quoted segment")
                     buf.append({"n": "\n", "r": "\r", "t": "\t"}.get(nx, nx if nx in '"\\' else "\\" + nx))
                     i += 2
                     continue
@@ -63,7 +69,7 @@ def parse_npath(npath: str):
             if not closed:
                 raise PathError("unterminated quote")
             if i < n and rest[i] != ".":
-                raise PathError("quote not at segment boundary")
+                raise PathUnspecified("characters after a closing quote")
             segs.append("".join(buf))
         else:
             j = i
@@ -72,6 +78,8 @@ def parse_npath(npath: str):
                     raise PathError("quote not at segment boundary")
                 j += 1
             name = rest[i:j]
+            if "-" in name and _BARE.match(name.replace("-", "_")):
+                raise PathUnspecified("hyphen in bare segment (docs allow, grammar unclear)")
             if not _BARE.match(name):
                 raise PathError("bad bare segment %r" % name)
             segs.append(name)
@@ -312,9 +320,10 @@ class DocModel:
             value = thaw_value(v[1])
         try:
             depth, segs = parse_npath(op["path"])
+        except PathUnspecified as exc:
+            return ("unspecified", "path spelling: %s" % exc)
         except PathError as exc:
-            if self.editable or True:
-                return ("reject", "ValueError", "malformed path: %s" % exc)
+            return ("reject", "ValueError", "malformed path: %s" % exc)
         if not self.editable:
             return ("reject", "ValueError", "not an editable shape: %s" % self.reason)
         if depth == 0:
